@@ -484,15 +484,17 @@ var goroutineHdr = regexp.MustCompile(`^goroutine \d+ \[([^\],]*)`)
 // can end: each watcherCache at the List/Watch gate or reading its (unbuffered) watch channel, the syncer's
 // main loop receiving from the (therefore empty) results channel.  A goroutine that is runnable, sleeping
 // on a retry timer or inside a callback makes the answer "not yet".
+var stackBuf = make([]byte, 1<<16)
+
 func quiescent(ncaches int) bool {
-	buf := make([]byte, 1<<17)
+	var buf []byte
 	for {
-		n := runtime.Stack(buf, true)
-		if n < len(buf) {
-			buf = buf[:n]
+		n := runtime.Stack(stackBuf, true)
+		if n < len(stackBuf) {
+			buf = stackBuf[:n]
 			break
 		}
-		buf = make([]byte, 2*len(buf))
+		stackBuf = make([]byte, 2*len(stackBuf))
 	}
 	caches, mains := 0, 0
 	for _, blk := range strings.Split(string(buf), "\n\n") {
@@ -538,10 +540,10 @@ func (d *drv) settle() {
 		if time.Now().After(deadline) {
 			fatal("timeout: the syncer did not become quiescent within %v (trace %d)", bound, d.log.T)
 		}
-		if i < 20 {
+		if i < 3 {
 			runtime.Gosched()
 		} else {
-			time.Sleep(100 * time.Microsecond)
+			time.Sleep(50 * time.Microsecond)
 		}
 	}
 }
@@ -658,10 +660,10 @@ func (d *drv) random(t int, rnd *rand.Rand) {
 func main() {
 	logrus.SetOutput(io.Discard)
 	logrus.SetLevel(logrus.PanicLevel)
-	watchersyncer.MinResyncInterval = 1 * time.Millisecond
-	watchersyncer.ListRetryInterval = 1 * time.Millisecond
-	watchersyncer.WatchPollInterval = 2 * time.Millisecond
-	watchersyncer.MissingAPIRetryTime = 3 * time.Millisecond
+	watchersyncer.MinResyncInterval = 100 * time.Microsecond
+	watchersyncer.ListRetryInterval = 100 * time.Microsecond
+	watchersyncer.WatchPollInterval = 200 * time.Microsecond
+	watchersyncer.MissingAPIRetryTime = 300 * time.Microsecond
 	if s := os.Getenv("VERIF_BOUND_S"); s != "" {
 		if n, err := strconv.Atoi(s); err == nil {
 			bound = time.Duration(n) * time.Second
